@@ -429,6 +429,39 @@ func checkErrorTablesAgree(c *Ctx, rule string) {
 		}
 	}
 	c.Floor(rule, "overlapping key pairs across the error tables", nPairs, 1)
+	// two generations of one backend's table (X and XPre<version>): the mapper of a current backend consults only the
+	// current table, so every "already ..." class — the answers after which publishTransaction must NOT treat the
+	// transaction as rejected — that the old generation can produce is produced by the current one too. (That a shorter
+	// key of the old table is contained in the backend's new message does not help: the old table is not consulted.)
+	vals := map[string]map[string]bool{}
+	for _, e := range ents {
+		if vals[e.table] == nil {
+			vals[e.table] = map[string]bool{}
+		}
+		vals[e.table][e.val] = true
+	}
+	nGen := 0
+	for old := range vals {
+		i := strings.Index(old, "Pre")
+		if i <= 0 {
+			continue
+		}
+		cur := old[:i]
+		if vals[cur] == nil {
+			continue
+		}
+		nGen++
+		var missing []string
+		for v := range vals[old] {
+			if strings.Contains(v, "Already") && !vals[cur][v] {
+				missing = append(missing, v)
+			}
+		}
+		sort.Strings(missing)
+		c.Check(rule, "current-table-covers-accepted-answers:"+cur, pk.Types.Scope().Lookup(cur).Pos(), len(missing) == 0,
+			fmt.Sprintf("the error table %s (consulted alone for current backends) has no entry classified %v although the older generation %s has: a current backend's answer of that kind is mapped to 'undefined', the wallet treats an accepted or already-known transaction as rejected and forgets it", cur, missing, old))
+	}
+	c.Floor(rule, "error tables with an older generation", nGen, 1)
 }
 
 // dominatingStoreVal: for a load of a local variable, the value of its nearest dominating store in the same
@@ -593,9 +626,31 @@ func checkProducersNeverDrop(c *Ctx, rule string) {
 				case *ssa.Select:
 					sends := false
 					onlyRecvOthers := true
+					// the object whose queue is fed: the receive cases (shutdown) must be channels of that same object —
+					// a producer that waits for ANOTHER object's shutdown (the shared connection's) blocks forever on the
+					// stopped queue of its own client
+					var owner ssa.Value
+					ownerOf := func(ch ssa.Value) ssa.Value {
+						for _, o := range (&Slicer{P: p}).Origins(ch) {
+							var recv ssa.Value
+							if call, ok := o.(*ssa.Call); ok && call.Call.StaticCallee() == chanIn && len(call.Call.Args) > 0 {
+								recv = call.Call.Args[0]
+							} else {
+								recv = o
+							}
+							if u, ok := stripConv(recv).(*ssa.UnOp); ok {
+								if fa, ok := u.X.(*ssa.FieldAddr); ok {
+									return stripConv(fa.X)
+								}
+							}
+						}
+						return nil
+					}
+					foreign := ""
 					for _, st := range x.States {
 						if st.Dir == types.SendOnly && isChanIn(st.Chan) {
 							sends = true
+							owner = ownerOf(st.Chan)
 						} else if st.Dir != types.RecvOnly {
 							onlyRecvOthers = false
 						}
@@ -603,7 +658,18 @@ func checkProducersNeverDrop(c *Ctx, rule string) {
 					if !sends {
 						continue
 					}
+					if owner != nil {
+						for _, st := range x.States {
+							if st.Dir == types.RecvOnly {
+								if o2 := ownerOf(st.Chan); o2 != nil && o2 != owner {
+									foreign = "a shutdown channel of another object"
+								}
+							}
+						}
+					}
 					n++
+					c.Check(rule, "queue-producer-waits-on-own-shutdown:"+fnName(fn), x.Pos(), foreign == "",
+						fnName(fn)+" hands a notification to its client's queue while waiting, as the way out, for "+foreign+": once the client itself is stopped (its queue no longer takes anything) the producer blocks for good and WaitForShutdown never returns")
 					c.Check(rule, "queue-producer-waits:"+fnName(fn), x.Pos(), x.Blocking && onlyRecvOthers,
 						fnName(fn)+" offers a notification to the queue in a select that can give up (a default case, or another send): the queue's input channel is unbuffered, so the notification is dropped whenever the worker is busy — 'none lost' no longer holds under a burst or a slow consumer")
 				}
@@ -1571,4 +1637,228 @@ func checkNoStaleTailAfterInPlaceFilter(c *Ctx, rule string) {
 	}
 	c.Floor(rule, "wallet functions scanned for in-place filters", n, 50)
 	c.Note("%s: %d in-place filters of a parameter slice in package wallet", rule, nFilters)
+}
+
+// ---------- wave 13 ----------
+
+// checkMustPassOnSuccess is the common shape of several wave-13 rules: function fn (resolved by package, receiver, name)
+// reports success only after having passed a call satisfying pred (directly, or through a private part of its region).
+func checkMustPassOnSuccess(c *Ctx, rule, construct string, fn *ssa.Function, calleeName string, detail string) {
+	p := c.P
+	if fn == nil {
+		c.Unresolved(rule, construct)
+		return
+	}
+	pred := func(ins ssa.Instruction) bool {
+		ci, ok := ins.(ssa.CallInstruction)
+		if !ok {
+			return false
+		}
+		if calleeShort(ci.Common()) == calleeName {
+			return true
+		}
+		g := ci.Common().StaticCallee()
+		if g == nil || g == fn || !p.inRegion(fn, g) {
+			return false
+		}
+		for _, cc := range callsOf(g) {
+			if calleeShort(cc.Common()) == calleeName {
+				return p.mustPassToSuccess(g, nil, func(i ssa.Instruction) bool {
+					c2, ok := i.(ssa.CallInstruction)
+					return ok && calleeShort(c2.Common()) == calleeName
+				}, nil) == nil
+			}
+		}
+		return false
+	}
+	bad := p.mustPassToSuccess(fn, nil, pred, nil)
+	pos := fn.Pos()
+	if bad != nil {
+		pos = bad.Pos()
+	}
+	c.Check(rule, construct, pos, bad == nil, detail)
+}
+
+// checkEveryRelevantTxIsRecorded: whatever the wallet is handed as relevant — a payment it received, a transaction it
+// created itself that pays only foreign addresses and has no change — is recorded: the recording is not made conditional
+// on one of the outputs paying the wallet (the inputs may be the wallet's). addRelevantTx reports success only after
+// InsertTxCheckIfExists.
+func checkEveryRelevantTxIsRecorded(c *Ctx, rule string) {
+	checkMustPassOnSuccess(c, rule, "relevant-tx-always-recorded", c.P.Func("wallet", "Wallet", "addRelevantTx"), "InsertTxCheckIfExists",
+		"addRelevantTx can report success without having recorded the transaction (InsertTxCheckIfExists is skipped on some condition): a created transaction that pays only foreign addresses is never recorded, its inputs stay selectable and the next send spends them again")
+}
+
+// checkBlockHashAnswersFromDatabase: Manager.BlockHash is a database read. An answer from the in-memory stamp (which
+// SetSyncedTo moves before its transaction commits) names a block the database never stored after a rolled-back connect.
+func checkBlockHashAnswersFromDatabase(c *Ctx, rule string) {
+	checkMustPassOnSuccess(c, rule, "block-hash-answered-from-database", c.P.Func("waddrmgr", "Manager", "BlockHash"), "fetchBlockHash",
+		"Manager.BlockHash can answer without reading the database (a shortcut through the in-memory synced-to stamp): after a rolled-back SetSyncedTo the running manager reports a hash for a block a restarted manager has never heard of")
+}
+
+// checkNoCommitHookReleasesIssuingMutex: the address-issuing critical section spans commit AND the manager's commit
+// callback (C09-R1). A function of the wallet package must therefore not hand the unlock of the issuing mutex to the
+// transaction as a commit hook: hooks run in registration order after the writer lock is gone, the unlock would run before
+// the callback that advances the in-memory index.
+func checkNoCommitHookReleasesIssuingMutex(c *Ctx, rule string) {
+	p := c.P
+	n := 0
+	for _, fn := range p.FuncsIn("wallet") {
+		for _, ci := range callsOf(fn) {
+			call, ok := ci.(*ssa.Call)
+			if !ok || !call.Call.IsInvoke() || call.Call.Method.Name() != "OnCommit" || len(call.Call.Args) != 1 {
+				continue
+			}
+			n++
+			bad := ""
+			var g *ssa.Function
+			switch x := stripConv(call.Call.Args[0]).(type) {
+			case *ssa.MakeClosure:
+				g, _ = x.Fn.(*ssa.Function)
+			case *ssa.Function:
+				g = x
+			}
+			if g == nil {
+				bad = "a function value that cannot be resolved"
+			} else {
+				for _, f := range Closures(g) {
+					for _, cc := range callsOf(f) {
+						if calleeShort(cc.Common()) == "Unlock" || calleeShort(cc.Common()) == "RUnlock" {
+							bad = "a function that unlocks a mutex"
+						}
+					}
+				}
+			}
+			c.Check(rule, "no-commit-hook-releases-issuing-mutex:"+fnName(outermost(fn)), call.Pos(), bad == "",
+				fnName(outermost(fn))+" registers "+bad+" as a commit hook of its database transaction: the issuing mutex is given back before the address manager's own commit callback has advanced the in-memory index, and another caller derives the same address")
+		}
+	}
+	c.Note("%s: %d commit hooks registered by the wallet package (none expected: the address manager registers its own)", rule, n)
+}
+
+// checkUnsignedSubtractionsAreGuarded: the recovery state counts in uint32. A difference x - y of two of its quantities is
+// meaningful only where x >= y is known: the subtraction sits behind an edge whose comparison says so (in normal form:
+// y - x < 0, y - x <= 0 or x == y). `horizon - nextUnfound` on a freshly resurrected state (horizon 0, found up to k)
+// wraps to a huge look-ahead, no horizon is ever extended again, and a resumed recovery watches nothing beyond what it
+// already knew.
+func checkUnsignedSubtractionsAreGuarded(c *Ctx, rule string) {
+	p := c.P
+	n := 0
+	for _, fn := range p.FuncsIn("wallet") {
+		if fn.Parent() != nil || (recvName(fn) != "BranchRecoveryState" && recvName(fn) != "ScopeRecoveryState" && recvName(fn) != "RecoveryState") {
+			continue
+		}
+		for _, b := range fn.Blocks {
+			for _, ins := range b.Instrs {
+				bo, ok := ins.(*ssa.BinOp)
+				if !ok || bo.Op != token.SUB {
+					continue
+				}
+				bt, ok := bo.Type().Underlying().(*types.Basic)
+				if !ok || bt.Info()&types.IsUnsigned == 0 {
+					continue
+				}
+				if _, isK := constInt(bo.Y); isK {
+					if k, _ := constInt(bo.Y); k <= 1 {
+						// x - 1 after a test that x is non-zero is the idiom for "last index": judged below as any other
+					}
+				}
+				n++
+				want := p.linearize(bo.Y, 0).add(p.linearize(bo.X, 0), -1) // y - x
+				guarded := false
+				for d := b; d != nil && !guarded; d = d.Idom() {
+					dom := d.Idom()
+					if dom == nil || len(dom.Instrs) == 0 {
+						continue
+					}
+					iff, ok := dom.Instrs[len(dom.Instrs)-1].(*ssa.If)
+					if !ok {
+						continue
+					}
+					for si, s := range dom.Succs {
+						if s != d && !s.Dominates(d) {
+							continue
+						}
+						// the edge must be the only way from dom into d's side
+						cf, ok := p.cmpForm(iff.Cond, si == 0)
+						if !ok {
+							continue
+						}
+						switch {
+						case cf.L.String() == want.String() && (cf.Rel == "<" || cf.Rel == "<=" || cf.Rel == "=="):
+							guarded = true
+						case cf.L.String() == want.scale(-1).String() && cf.Rel == "==":
+							guarded = true
+						}
+					}
+				}
+				c.Check(rule, "unsigned-subtraction-is-guarded:"+fn.Name(), bo.Pos(), guarded,
+					fnName(fn)+" subtracts two unsigned quantities ("+p.linearize(bo.X, 0).String()+" minus "+p.linearize(bo.Y, 0).String()+") without a dominating test that the first is not smaller: on a resurrected state the difference wraps, the horizon is never extended again and the resumed recovery has no look-ahead")
+			}
+		}
+	}
+	c.Floor(rule, "unsigned subtractions in the recovery state", n, 1)
+}
+
+// checkBirthdaySearchGivesUpOnlyAtABound: the birthday block search accepts the midpoint block in two ways: its
+// timestamp lies within the margin of the birthday, or the search has nowhere left to go. The second, unconditional
+// acceptance (the one not preceded by any timestamp comparison) is entered only over edges that say "the midpoint IS one
+// of the bounds" — equalities of the accepted height with something. Entered on a mere "the range is small" test, a block
+// that was never compared with the birthday (and may lie after the first payment) becomes the birthday block. (The
+// search as a whole — that it finds a block within the margin — is numeric and not decided.)
+func checkBirthdaySearchGivesUpOnlyAtABound(c *Ctx, rule string) {
+	p := c.P
+	fn := p.Func("wallet", "", "locateBirthdayBlock")
+	if fn == nil {
+		c.Unresolved(rule, "wallet.locateBirthdayBlock")
+		return
+	}
+	n := 0
+	for _, st := range storesToFieldOwner(fn, "BlockStamp", "Height") {
+		b := st.Block()
+		// preceded by a timestamp comparison on every path? then it is the in-margin acceptance
+		q := &PathQuery{Fn: fn, Barrier: func(i ssa.Instruction) bool {
+			call, ok := i.(*ssa.Call)
+			return ok && calleeShort(&call.Call) == "Sub"
+		}}
+		tgt := st
+		q.Target = func(i ssa.Instruction, _ *ssa.BasicBlock) bool { return i == ssa.Instruction(tgt) }
+		if len(q.From(nil)) == 0 {
+			continue
+		}
+		n++
+		mid := stripConv(st.Val)
+		ok := len(b.Preds) > 0
+		for _, pr := range b.Preds {
+			iff, isIf := pr.Instrs[len(pr.Instrs)-1].(*ssa.If)
+			if !isIf {
+				ok = false
+				continue
+			}
+			taken := pr.Succs[0] == b
+			// the same fact spelled as a width: "a - b < 2" (the range holds at most two heights, so its midpoint is
+			// its lower bound); a wider width is not that fact
+			if f, isCmp := p.cmpForm(iff.Cond, taken); isCmp && f.Rel == "<" && len(f.L.Coef) == 2 && f.L.Konst >= -2 {
+				sum, unit := int64(0), true
+				for _, k := range f.L.Coef {
+					sum += k
+					unit = unit && (k == 1 || k == -1)
+				}
+				if unit && sum == 0 {
+					continue
+				}
+			}
+			inner, neg := unwrapNot(iff.Cond)
+			bo, isBo := inner.(*ssa.BinOp)
+			if !isBo || !(((bo.Op == token.EQL) != neg) == taken && (bo.Op == token.EQL || bo.Op == token.NEQ)) {
+				ok = false
+				continue
+			}
+			if stripConv(bo.X) != mid && stripConv(bo.Y) != mid {
+				ok = false
+			}
+		}
+		c.Check(rule, "birthday-search-gives-up-only-at-a-bound", st.Pos(), ok,
+			"locateBirthdayBlock accepts the midpoint block without having compared its timestamp with the birthday on an edge that does not say the midpoint equals a bound of the search: a block later than the margin (possibly later than the first payment) becomes the birthday block and the blocks before it are never scanned")
+	}
+	c.Floor(rule, "unconditional acceptances in the birthday block search", n, 1)
 }
